@@ -80,7 +80,7 @@ def gen(rng, i, tier):
     return {"spec": spec, "seed": rng.randrange(1 << 40), "model": rng.choice(["linear", "sag", "impedance", "noisy", "plateau", "plateau"]),
             "steps": rng.choice([1, 4, 7, 15, 40]), "end": rng.choice(["capacity", "cutoff", "already_below", "capacity"]),
             "history": ["fresh", "identity_change_comp", "index_gaps", "solve_then_move_leaf"][i % 4], "by_rail": i % 3 != 0,
-            "earlier_run": i % 5 in (1, 3), "declared_zero": i % 6 == 2}
+            "earlier_run": i % 5 in (1, 3), "declared_zero": i % 6 == 2, "on_copy": i % 7 == 3}
 
 
 def run(ctx, case):
@@ -103,6 +103,9 @@ def run(ctx, case):
     # the system is the product of a build history (edited after analysis, registries out of node order, index gaps)
     spec, sysobj = _rows.build_with_history(ctx, spec, case.get("history", "fresh"), case["seed"] & 0xFFFFFF)
     b = [c for c in spec["comps"] if c["name"] == name][0]
+    if case.get("on_copy"):
+        sysobj = copy.deepcopy(sysobj)  # the depletion is simulated on a deep copy of the (possibly edited) system
+        ctx.count("history", "batt_life on a copy.deepcopy() of the system")
     by_rail = bool(b.get("rail")) and bool(case.get("by_rail", rng.random() < 0.4))
     ref = b["rail"] if by_rail else name
     phases = list((spec.get("phases") or {}).items())
